@@ -3,12 +3,24 @@ the real crate under catch_unwind on the unrestricted grammar over texts mixing 
 characters + ties of the model VM / API model."""
 from . import engprop, apiprops, gen
 
+def wide():
+    """patterns with more than 32 capture groups (slot indices beyond one machine word of bits),
+    followed by the commit points that walk the undo log"""
+    out = {}
+    for k in (31, 32, 33, 40):
+        pre = "(z)?" * k
+        for p in [pre + "(?>(?:(a)\\b|,))a", pre + "(?=(a)|,)(?:a|,)", pre + "(?>(?:(a)|é)+),|a+"]:
+            out[p] = ["a,", "aa,", "aé,", ",a"]
+        out["(?>(?:(a" + "(a)" * k + "(é\\b))|,))a|a"] = ["a" * (k + 1) + "é", "a" * (k + 1) + "éa", ",a"]
+    return out
+
+
 CFG = apiprops.cfg("C05", ["C05_reference_offsets_valid", "C05_iter_spans_valid", "C05_split_no_panic", "C05_replace_no_panic", "C05_vm_never_panics", "C05_vm_offsets_valid", "C05_vm_never_panics_any_program", "C05_vm_offsets_valid_any_program", "C05_vm_search_ok", "C05_vm_iter_spans_valid", "C05_vm_split_never_panics", "C05_vm_replace_never_panics"],
                    [apiprops.api_extra("C05", limits=("-", "1", "3"))],
                    feats=[gen.Feats(cond=True, contg=True, nullable_star=True, refs_closed=False, named=True), gen.Feats(cond=True, contg=True, refs_closed=False), gen.Feats(nullable_star=True, refs_closed=False)],
                    tiers=("t2", "run"), n_thorough=1000, k_base_thorough=20, k_extra_thorough=12,
-                   corpus=["(?:(?=(\\1?a))aaa)+", "a|(?<=\\Ka)b", "(?!x)", "^|(?<=,)", "\\d*(?=é)", "(?<=é)", "(?<!€)\\b", "(?<=𝄞)|a", "\\G(?=é)", "(a)|\\1", "(?:\\1(a))+", "(?<=(?=é).)", ".(?<=é)", "(?<=\\Gé)", "\\K", "(?:)*+", "(\\1)"],
-                   alpha=["a", "é", "€", "𝄞", ",", "\n"], extra_texts=["é", "a,é", "éé", "€é", "𝄞a𝄞", "aaaaaa", "aé€𝄞", ",é,", "é\n€"],
+                   corpus=["(?:(?=(\\1?a))aaa)+", "a|(?<=\\Ka)b", "(?!x)", "^|(?<=,)", "\\d*(?=é)", "(?<=é)", "(?<!€)\\b", "(?<=𝄞)|a", "\\G(?=é)", "(a)|\\1", "(?:\\1(a))+", "(?<=(?=é).)", ".(?<=é)", "(?<=\\Gé)", "\\K", "(?:)*+", "(\\1)"] + list(wide()), pattern_texts=wide(),
+                   alpha=["a", "é", "€", "𝄞", ",", "\n"], extra_texts=["฿", "฿।", "a฿a", "।฿฿", "a,", "aa,", "é", "a,é", "éé", "€é", "𝄞a𝄞", "aaaaaa", "aé€𝄞", ",é,", "é\n€"],
                    assumptions=["PARTIAL: 'the compiled VM never reaches a panic site, reported slots are boundaries' is a theorem for EVERY compiled program of a pattern with no conditional under an atomic cut; for those patterns, and for SearchOK's start >= offset, it is validated (catch_unwind on every entry point, exact model tie); F-keepout-lb is a known finding"])
 
 
